@@ -223,9 +223,9 @@ func c21flush(r *vh.Run, classes map[string]int64) {
 }
 
 func TestVerif_C21_neobytes(t *testing.T) {
-	r := vh.Start(t, "C21", "neobytes")
+	r := vh.Start(t, "C21", "common")
 	defer r.Finish()
-	r.Rule("every byte string of the stated lengths b: BigIntFromNeoBytes(b) equals an independent two's complement decoder; BigIntToNeoBytes of that value equals an independent minimal encoder, is never longer than b and equals b when it has b's length (one shortest encoding per value); every integer of the stated set: encode is minimal, decode(encode(v)) = v, sign-extended forms decode to v; distinct = (minimal|padded, sign, length class)")
+	r.Rule("NeoBytes: every byte string of the stated lengths b: BigIntFromNeoBytes(b) equals an independent two's complement decoder; BigIntToNeoBytes of that value equals an independent minimal encoder, is never longer than b and equals b when it has b's length (one shortest encoding per value); every integer of the stated set: encode is minimal, decode(encode(v)) = v, sign-extended forms decode to v. I128: integers +-2^k+{-1,0,1} (k<=130), [-70000,70000], int64/uint64 ends: I128FromBigInt equals the 16-byte two's complement form exactly when -2^127 <= v < 2^127 and errors otherwise, ToBigInt inverts it, FromInt64/FromUint64 agree; 16-byte patterns: ToBigInt equals the reference decoder and FromBigInt(ToBigInt(x)) = x; distinct = (minimal|padded, sign, length class) and i128 accepted/rejected x sign")
 	if r.Quick() {
 		r.Bound("all byte strings <=2 bytes, all 3-byte strings whose middle byte is in a 16-symbol alphabet, structured strings of 4..34 bytes; integers [-70000,70000] and +-2^k, +-2^k+-1 for k<=264")
 	} else {
@@ -236,13 +236,23 @@ func TestVerif_C21_neobytes(t *testing.T) {
 
 	var c c21case
 	if r.ReplayCase(&c) && c.Kind != "" {
-		if c.Kind == "bytes" {
+		switch c.Kind {
+		case "bytes":
 			var b []byte
 			fmt.Sscanf(c.Bytes, "%x", &b)
 			c21checkBytes(r, b, classes)
-		} else {
+		case "int":
 			v, _ := new(big.Int).SetString(c.Int, 10)
 			c21checkInt(r, v, classes)
+		case "i128int":
+			v, _ := new(big.Int).SetString(c.Int, 10)
+			c21checkI128Int(r, v)
+		case "i128bytes":
+			var b []byte
+			fmt.Sscanf(c.Bytes, "%x", &b)
+			var x I128
+			copy(x[:], b)
+			c21checkI128Bytes(r, x)
 		}
 		r.Eval(1)
 		return
@@ -345,6 +355,8 @@ func TestVerif_C21_neobytes(t *testing.T) {
 	r.Sample(c21case{Kind: "bytes", Bytes: "80ff"})
 	r.Sample(c21case{Kind: "bytes", Bytes: "ff00"})
 	r.Sample(c21case{Kind: "int", Int: "-128"})
+	r.Sample(c21case{Kind: "i128int", Int: new(big.Int).Neg(c21pow(127)).String()})
+	r.Sample(c21case{Kind: "i128int", Int: c21pow(127).String()})
 	c21flush(r, classes)
 	for k := range classes {
 		delete(classes, k)
@@ -353,6 +365,10 @@ func TestVerif_C21_neobytes(t *testing.T) {
 	r.NeedClass("neobytes:padded:neg:len2")
 	r.NeedClass("neobytes:padded:pos:len2")
 	r.NeedClass("neobytes:padded:zero:len1")
+	// the 128-bit conversions ride on shard 0 of the same unit (one build of the package)
+	if r.R.Shard == 0 {
+		c21i128(r)
+	}
 }
 
 // ---------------------------------------------------------------- I128
@@ -458,26 +474,13 @@ func c21checkI128Bytes(r *vh.Run, x I128) {
 	}
 }
 
-func TestVerif_C21_i128(t *testing.T) {
-	r := vh.Start(t, "C21", "i128")
-	defer r.Finish()
-	r.Rule("integers +-2^k+{-1,0,1} (k<=130), [-70000,70000], int64/uint64 ends: I128FromBigInt equals the 16-byte two's complement form exactly when -2^127 <= v < 2^127 and is an error otherwise; ToBigInt inverts it; FromInt64/FromUint64 agree; 16-byte patterns (single bits, sign/low/high byte products): ToBigInt equals the reference decoder and FromBigInt(ToBigInt(x)) = x; distinct = accepted/rejected x sign")
-	r.Bound("k<=130; dense [-70000,70000]; 128 single-bit patterns and their complements; 16^3 patterns over bytes 0,14,15 x 3 fills")
-	var c c21case
-	if r.ReplayCase(&c) && c.Kind != "" {
-		if c.Kind == "i128int" {
-			v, _ := new(big.Int).SetString(c.Int, 10)
-			c21checkI128Int(r, v)
-		} else {
-			var b []byte
-			fmt.Sscanf(c.Bytes, "%x", &b)
-			var x I128
-			copy(x[:], b)
-			c21checkI128Bytes(r, x)
-		}
-		r.Eval(1)
-		return
-	}
+// c21i128: integers +-2^k+{-1,0,1} (k<=130), [-70000,70000], int64/uint64
+// ends: I128FromBigInt equals the 16-byte two's complement form exactly when
+// -2^127 <= v < 2^127 and is an error otherwise; ToBigInt inverts it;
+// FromInt64/FromUint64 agree; 16-byte patterns (single bits and complements,
+// 16^3 patterns over bytes 0,14,15 x 3 fills): ToBigInt equals the reference
+// decoder and FromBigInt(ToBigInt(x)) = x.
+func c21i128(r *vh.Run) {
 	var n int64
 	for k := uint(0); k <= 130; k++ {
 		for _, d := range []int64{-1, 0, 1} {
@@ -528,8 +531,6 @@ func TestVerif_C21_i128(t *testing.T) {
 	if pow128.Cmp(c21pow(128)) != 0 || maxI128.Cmp(new(big.Int).Sub(c21pow(127), big.NewInt(1))) != 0 || minI128.Cmp(new(big.Int).Neg(c21pow(127))) != 0 {
 		r.Violation("i128:shared-constant-modified", "pow128/maxI128/minI128 changed during conversions", nil)
 	}
-	r.Sample(c21case{Kind: "i128int", Int: new(big.Int).Neg(c21pow(127)).String()})
-	r.Sample(c21case{Kind: "i128int", Int: c21pow(127).String()})
 	r.NeedClass("i128:rejected:out-of-range")
 	r.NeedClass("i128:accepted:negative")
 	r.NeedClass("i128:bytes:negative")
